@@ -146,7 +146,9 @@ def main():
 
     os.makedirs(os.path.join(VERIF, 'evidence'), exist_ok=True)
     os.makedirs(os.path.join(VERIF, 'counterexamples'), exist_ok=True)
-    ev_path = os.path.join(VERIF, 'evidence', pid + '.json')
+    ev_dir = os.environ.get('VERIF_EVIDENCE_DIR') or os.path.join(VERIF, 'evidence')      # development runs on modified trees (seedrun.sh) write elsewhere
+    os.makedirs(ev_dir, exist_ok=True)
+    ev_path = os.path.join(ev_dir, pid + '.json')
     problems = []        # reasons for exit 2
 
     # 1. MIR dumps (regenerated from /repo's working tree; cached by content hash) and replay build
